@@ -154,8 +154,9 @@ def depth_cases():
         cases.append({"units": {s: non for s in slots}, "expect": None})
     for forced, exp in (("m", "m"), ("ft", "ft"), ("M", None), ("metres", "m")):
         cases.append({"units": {s: "km" for s in slots}, "force": forced, "expect_forced": exp})
+    # every case also for files read with mnemonic_case lower / preserve (the items are then stored as strt / stop / step)
+    cases = cases + [dict(c, case="lower") for c in cases if "force" not in c] + [dict(c, case="preserve") for c in cases[::4] if "force" not in c]
     return cases
-
 
 def bounds(tier):
     return {"objects": list(OBJ), "csv_option_product": 144, "depth_cases": len(depth_cases())}
@@ -491,6 +492,8 @@ def check_depth(pt):
         kw = {}
         if "force" in case:
             kw["index_unit"] = case["force"]
+        if case.get("case"):
+            kw["mnemonic_case"] = case["case"]
         try:
             las = lasio.read(text, **kw)
         except Exception as e:
